@@ -220,6 +220,33 @@ fn handle(db: &anything::Db, line: &str) -> Value {
                 let back: Option<Compound> = cbor.as_ref().and_then(|b| serde_cbor::from_slice(b).ok());
                 json!({ "names": names(&c), "cbor": cbor.map(hex), "cbor_back": back.as_ref().map(names), "equal": back.as_ref().map(|b| *b == c) })
             }
+            // C c <hex unit> <n> <d> <source or -> <hex words> <hex description>: a whole constant through CBOR and JSON
+            Some(&"c") => {
+                let Some(src) = args.get(1).and_then(|a| unhex(a)) else { return json!({"bad": 1}) };
+                let Ok(unit) = src.parse::<Compound>() else { return json!({"unit_err": 1}) };
+                let Some(value) = parse_rat(args.get(2).unwrap_or(&"0"), args.get(3).unwrap_or(&"1")) else { return json!({"bad": 1}) };
+                let source = args.get(4).and_then(|a| a.parse::<u64>().ok());
+                let words = args.get(5).and_then(|a| unhex(a)).unwrap_or_default();
+                let description = args.get(6).and_then(|a| unhex(a)).unwrap_or_default();
+                let c = anything::Constant {
+                    source,
+                    tokens: words.split(' ').filter(|w| !w.is_empty()).map(|w| w.into()).collect(),
+                    description: description.into(),
+                    value,
+                    unit,
+                };
+                let same = |b: &anything::Constant| b.value == c.value && b.unit == c.unit && b.description == c.description && b.tokens == c.tokens && b.source == c.source;
+                let cbor = serde_cbor::to_vec(&c).map_err(|e| e.to_string());
+                let back = cbor.as_ref().ok().map(|b| serde_cbor::from_slice::<anything::Constant>(b).map_err(|e| e.to_string()));
+                let js = serde_json::to_string(&c).map_err(|e| e.to_string());
+                let jback = js.as_ref().ok().map(|b| serde_json::from_str::<anything::Constant>(b).map_err(|e| e.to_string()));
+                json!({
+                    "names": names(&c.unit),
+                    "cbor": cbor.as_ref().ok().map(|b| hex(b.clone())), "cbor_err": cbor.as_ref().err(),
+                    "cbor_same": back.as_ref().and_then(|b| b.as_ref().ok().map(|b| same(b))), "cbor_back_err": back.as_ref().and_then(|b| b.as_ref().err().cloned()),
+                    "json_same": jback.as_ref().and_then(|b| b.as_ref().ok().map(|b| same(b))), "json_back_err": jback.as_ref().and_then(|b| b.as_ref().err().cloned()),
+                })
+            }
             // C d <hex cbor bytes as hex string>: decode a Compound from given CBOR
             Some(&"d") => {
                 let Some(h) = args.get(1) else { return json!({"bad": 1}) };
